@@ -8,6 +8,7 @@ package c20
 
 import (
 	"context"
+	"fmt"
 	"os"
 	"os/exec"
 	"strings"
@@ -36,6 +37,14 @@ func raceBody(r *ev.Run, rounds int) (views, changed int64) {
 		wg.Add(1)
 		go func(g int) {
 			defer wg.Done()
+			// a panic inside juno on a reader goroutine is a finding, never an infrastructure error: without this
+			// recover it would kill the process (exit 2)
+			defer func() {
+				if p := recover(); p != nil {
+					stop.Store(true)
+					r.Violate("free-running: reader goroutine panics inside juno while the writer runs", map[string]any{"panic": fmt.Sprint(p), "reader": g})
+				}
+			}()
 			var held []root
 			for !stop.Load() {
 				q := uint64(3 + g)
@@ -60,7 +69,7 @@ func raceBody(r *ev.Run, rounds int) (views, changed int64) {
 			}
 		}(g)
 	}
-	for i := 0; i < rounds; i++ {
+	for i := 0; i < rounds && !stop.Load(); i++ {
 		for _, o := range script {
 			w.apply(o)
 		}
